@@ -317,6 +317,12 @@ func CtxErrNoYield(ctx context.Context) error {
 	return parentErrNoYield(ctx)
 }
 
+// SetQuiet switches exploration off (on) for the part of an execution that follows: while quiet, every
+// decision takes the default alternative (the running task carries on), no branch is opened and states are
+// neither recorded nor pruned. A harness uses it to bring the system into a non-initial state along ONE
+// schedule -- a first call run to completion -- before the part it wants explored begins.
+func SetQuiet(on bool) { S.quiet = on }
+
 // SetTimers enables or disables firing of deadline timers in this execution.
 func SetTimers(on bool) { S.timers = on }
 
